@@ -356,7 +356,48 @@ func check(c Case) vrep.Result {
 
 var docTypes = []string{"Note", "Person", "Create", "OrderedCollection", "Collection", "Group", "Article", "Announce", "OrderedCollectionPage"}
 
+// genTimeline: an attacker's actor whose timeline (outbox → [first page →] items) carries copies of a victim host's
+// objects, with every spelling of "this page belongs to / comes from the victim" the vocabulary offers. The random
+// generator below reaches such chains only rarely.
+func genTimeline(t *rapid.T) Case {
+	a := rapid.IntRange(0, 2).Draw(t, "attacker")
+	v := (a + 1 + rapid.IntRange(0, 1).Draw(t, "victimoffset")) % 3
+	c := Case{EndToEnd: rapid.IntRange(0, 3).Draw(t, "endtoend") > 0, Fetches: []int{0}}
+	shape := func(label string, from ...string) string { return rapid.SampledFrom(from).Draw(t, label) }
+	c.Docs = []Doc{
+		{Host: a, Name: "d0", Type: "Person", ClaimDoc: -1, Links: []Link{{Key: "outbox", Target: 1, Shape: shape("outboxshape", "ref", "embed", "stub-url")}}},
+		{Host: a, Name: "d1", Type: "OrderedCollection", ClaimDoc: -1},
+		{Host: a, Name: "d2", Type: "OrderedCollectionPage", ClaimDoc: rapid.SampledFrom([]int{-2, -2, -1}).Draw(t, "pageid")},
+		{Host: v, Name: "d3", Type: rapid.SampledFrom([]string{"Note", "Article"}).Draw(t, "victimtype"), ClaimDoc: -1},
+		{Host: v, Name: "d4", Type: "OrderedCollection", ClaimDoc: -1},
+		{Host: a, Name: "d5", Type: "Create", ClaimDoc: rapid.SampledFrom([]int{-1, -2}).Draw(t, "actid"), Links: []Link{{Key: "actor", Target: 0, Shape: "ref"}, {Key: "object", Target: 3, Shape: shape("objshape", "embed", "embed", "ref", "wrapped")}}},
+	}
+	item := Link{Key: "orderedItems", Target: rapid.SampledFrom([]int{3, 3, 5}).Draw(t, "item"), Shape: shape("itemshape", "embed", "embed", "wrapped", "ref"), InList: true}
+	if rapid.Bool().Draw(t, "paged") {
+		c.Docs[1].Links = []Link{{Key: "first", Target: 2, Shape: shape("firstshape", "embed", "embed-noid", "ref", "stub")}}
+		c.Docs[2].Links = []Link{item}
+	} else {
+		c.Docs[1].Links = []Link{item}
+	}
+	for _, i := range []int{1, 2, 5} {
+		for n := rapid.IntRange(0, 2).Draw(t, "nnaming"); n > 0; n-- {
+			c.Docs[i].Extras = append(c.Docs[i].Extras, Link{Key: rapid.SampledFrom([]string{"partOf", "partOf", "context", "url", "origin", "source", "target", "generator"}).Draw(t, "namingkey"),
+				Target: rapid.SampledFrom([]int{3, 4, 4}).Draw(t, "namingtarget")})
+		}
+		if rapid.IntRange(0, 3).Draw(t, "namingheader") == 0 {
+			c.Docs[i].HeaderExtras = append(c.Docs[i].HeaderExtras, Link{Key: rapid.SampledFrom([]string{"Content-Location", "Link", "Location"}).Draw(t, "headerkey"), Target: rapid.SampledFrom([]int{3, 4}).Draw(t, "headertarget")})
+		}
+	}
+	if rapid.Bool().Draw(t, "morefetches") {
+		c.Fetches = append(c.Fetches, rapid.SampledFrom([]int{1, 2, 3, 5, 0}).Draw(t, "fetch2"))
+	}
+	return c
+}
+
 func gen(t *rapid.T) Case {
+	if rapid.SampledFrom([]int{0, 0, 0, 1}).Draw(t, "timeline") == 1 {
+		return genTimeline(t)
+	}
 	c := Case{EndToEnd: rapid.IntRange(0, 1).Draw(t, "endtoend") == 0}
 	n := rapid.IntRange(2, 10).Draw(t, "ndocs")
 	for i := 0; i < n; i++ {
